@@ -68,7 +68,7 @@ def gen_world(rng, i, tier):
             pairs = pairs + [p for p in p2 if p not in pairs]
     else:
         sets = []
-        secs = [None, "A", "B b", "C"]
+        secs = [None, "A", "B b", "C", "_oNne_"]
         for _ in range(rng.randint(1, 20)):
             sets.append([rng.pick(secs), rng.pick(["k1", "k2", "Name", "n", "flag"]), rng.pick(grammar.WORDS + ["", "multi\n  line", "\"q\"", "x#y", " lead", "trail ", "  both\t", "tab\tin", "line1\nline2 \n  line3", "L" * 1100, "seg " * 500, "Yes Please " * 800, "TRUE" + "x" * 8190, "No" * 4096, "0X" + "F" * 9000])])
         w["sets"] = sets
@@ -79,6 +79,11 @@ def gen_world(rng, i, tier):
     w["pairs"] = pairs
     w["partner"] = rng.pick(["other", "twin"])
     w["queries"] = gen_queries(rng, pairs, tier)
+    if rng.chance(0.12):
+        # resource fault: only a dozen more descriptors may be opened, and the history contains many writes that fail
+        # (the target name is a directory): whatever a failing call holds on to is missing for the calls after it
+        w["fd_budget"] = rng.pick([10, 12, 16])
+        w["queries"] = w["queries"][:8] + [["write_fail"]] * rng.pick([20, 30]) + w["queries"][8:12]
     return w
 
 
@@ -136,6 +141,8 @@ def q_exec(q):
         return [{"op": "write", "k": 0, "dir": "$ROOT/out", "name": "q.conf"}]
     if o == "merge_base":
         return [{"op": "merge", "o": 5, "usr": 0, "etc": 1}, {"op": "dump", "k": 5, "ext": False}, {"op": "free", "k": 5}]
+    if o == "write_fail":
+        return [{"op": "write", "k": 0, "dir": "$ROOT/out", "name": "adir"}]
     if o == "merge_self":
         return [{"op": "merge", "o": 5, "usr": 0, "etc": 0}, {"op": "dump", "k": 5, "ext": False}, {"op": "free", "k": 5}]
     if o == "merge_over":
@@ -144,7 +151,7 @@ def q_exec(q):
 
 
 def build_plans(world):
-    tree = [{"t": "d", "p": "$ROOT/out"}, {"t": "f", "p": "$ROOT/other.conf", "c": "g=1\n[A]\nk1=o\nzz=2\n[New]\nn=3\n"},
+    tree = [{"t": "d", "p": "$ROOT/out"}, {"t": "d", "p": "$ROOT/out/adir"}, {"t": "f", "p": "$ROOT/other.conf", "c": "g=1\n[A]\nk1=o\nzz=2\n[New]\nn=3\n"},
             {"t": "f", "p": "$ROOT/out/snap.conf", "c": "stale=1\n" * 300}]
     ops = []
     D, C = world["D"], world["C"]
@@ -197,6 +204,8 @@ def build_plans(world):
     ops += snapshot("d0")
     # what a write produces is a function of the object: the same bytes in a file that did not exist before
     ops.append({"op": "write", "k": obj, "dir": "$ROOT/out", "name": "fresh.conf", "readback": True, "tag": "fresh"})
+    if world.get("fd_budget"):
+        ops.append({"op": "fd_budget", "extra": world["fd_budget"], "tag": "budget"})
     for n, q in enumerate(world["queries"]):
         for e in q_exec(q):
             e = dict(e)
@@ -280,6 +289,8 @@ def check(world, plans, results):
         v.probe("used_as_merge_input")
     if world.get("dup_keys"):
         v.probe("key_defined_twice_in_a_section")
+    if world.get("fd_budget"):
+        v.probe("descriptor_budget_with_failing_writes")
     if any(p[0] and p[0].startswith("[") for p in world["pairs"]):
         v.probe("bracketed_stored_section_name")
     return v
